@@ -305,13 +305,17 @@ Proof.
   rewrite Hd. rewrite (lower_upper_alphabetic c Hc). reflexivity.
 Qed.
 
-Theorem parse_term_list_bar : forall fuel ps ts v,
+(* what the `|` branch makes of the tail text *)
+Definition tail_parse (v : str) : presult term :=
+  if str_eqb v [c_dollar; c_underscore] then POk TAnon else make_logic_var v.
+
+Theorem parse_term_list_bar_gen : forall fuel ps ts v tvar,
   ps <> [] -> Forall good ps -> Forall2 (fun p t => parse_term fuel p = Ok (POk t)) ps ts ->
-  simple_var v = true ->
-  parse_term (S fuel) (list_text_bar ps v) = Ok (POk (list_nodes ts (tail_node (TVar 0 v)))).
+  word v -> tail_parse v = POk tvar ->
+  parse_term (S fuel) (list_text_bar ps v) = Ok (POk (list_nodes ts (tail_node tvar))).
 Proof.
-  intros fuel ps ts v Hne Hg Hp Hv.
-  pose proof (simple_var_word v Hv) as Hvw. pose proof (good_word v Hvw) as Hvg.
+  intros fuel ps ts v tvar Hne Hg Hp Hvw Hv.
+  pose proof (good_word v Hvw) as Hvg.
   pose proof (good_list_bar ps v Hg Hvg) as Hgood. unfold list_text_bar in *.
   rewrite parse_term_good_list by exact Hgood.
   set (J := join_strs sep_comma ps) in *.
@@ -344,8 +348,8 @@ Proof.
   { rewrite trim_cons_white by reflexivity. now apply word_trimmed. }
   rewrite Etv. pose proof (g_ne v Hvg) as Hvne.
   destruct v as [|v0 v1] eqn:Ev; [now elim Hvne|]. rewrite <- Ev in *.
-  rewrite (simple_var_not_anon v Hv), (make_logic_var_simple v Hv).
-  change (link_front (TVar 0 v) true empty_list) with (Ok (tail_node (TVar 0 v))).
+  unfold tail_parse in Hv. rewrite Hv.
+  change (link_front tvar true empty_list) with (Ok (tail_node tvar)).
   cbn [bind pbind pok].
   (* the blank before the bar *)
   replace (pll_from (parse_term fuel) args (length J + 1)) with (pll_from (parse_term fuel) args (S (length J)))
@@ -360,8 +364,31 @@ Proof.
   change (32 =? c_comma) with false. change (32 =? c_bar) with false. cbv iota.
   cbn [pbind pok].
   pose proof (pll_from_pieces (parse_term fuel) ps ts args [32] (124 :: 32 :: v)
-                (tail_node (TVar 0 v)) true Hne Hg Hp (or_intror eq_refl) Ha4 Hargs eq_refl) as H.
+                (tail_node tvar) true Hne Hg Hp (or_intror eq_refl) Ha4 Hargs eq_refl) as H.
   fold J in H. cbn [length] in H. exact H.
+Qed.
+
+Theorem parse_term_list_bar : forall fuel ps ts v,
+  ps <> [] -> Forall good ps -> Forall2 (fun p t => parse_term fuel p = Ok (POk t)) ps ts ->
+  simple_var v = true ->
+  parse_term (S fuel) (list_text_bar ps v) = Ok (POk (list_nodes ts (tail_node (TVar 0 v)))).
+Proof.
+  intros fuel ps ts v Hne Hg Hp Hv.
+  apply parse_term_list_bar_gen; [exact Hne|exact Hg|exact Hp|now apply simple_var_word|].
+  unfold tail_parse. now rewrite (simple_var_not_anon v Hv), (make_logic_var_simple v Hv).
+Qed.
+
+Definition anon_text : str := [c_dollar; c_underscore].
+
+Lemma anon_word : word anon_text.
+Proof. split; [discriminate|]. split; [repeat constructor|discriminate]. Qed.
+
+Theorem parse_term_list_bar_anon : forall fuel ps ts,
+  ps <> [] -> Forall good ps -> Forall2 (fun p t => parse_term fuel p = Ok (POk t)) ps ts ->
+  parse_term (S fuel) (list_text_bar ps anon_text) = Ok (POk (list_nodes ts (tail_node TAnon))).
+Proof.
+  intros fuel ps ts Hne Hg Hp.
+  apply parse_term_list_bar_gen; [exact Hne|exact Hg|exact Hp|apply anon_word|reflexivity].
 Qed.
 
 (* the same for the printed texts *)
@@ -395,5 +422,18 @@ Proof.
   rewrite show_list_tail by (assumption || reflexivity).
   cbn [show_term]. change (0 =? 0) with true. cbv iota.
   apply parse_term_list_bar; [|now apply Forall_map_good|now apply Forall2_map_parse|exact Hv].
+  destruct ts; [now elim Hne|discriminate].
+Qed.
+
+Corollary parse_term_show_list_anon : forall fuel ts,
+  ts <> [] -> non_nil_terms ts ->
+  Forall (fun t => good (show_term t)) ts ->
+  Forall (fun t => parse_term fuel (show_term t) = Ok (POk t)) ts ->
+  parse_term (S fuel) (show_term (list_nodes ts (tail_node TAnon))) =
+  Ok (POk (list_nodes ts (tail_node TAnon))).
+Proof.
+  intros fuel ts Hne Hn Hg Hp.
+  rewrite show_list_tail by (assumption || reflexivity).
+  apply parse_term_list_bar_anon; [|now apply Forall_map_good|now apply Forall2_map_parse].
   destruct ts; [now elim Hne|discriminate].
 Qed.
